@@ -655,7 +655,20 @@ const (
 )
 
 type Facts struct {
-	list []Cond
+	list  []Cond
+	extra []*Poly // polynomials of the current query (so that their min/max atoms are known)
+}
+
+func geIn(g []*Poly, q *Poly) bool {
+	if nonNegConst(q) {
+		return true
+	}
+	for _, a := range g {
+		if nonNegConst(q.Sub(a)) {
+			return true
+		}
+	}
+	return false
 }
 
 func (f *Facts) clone() *Facts {
@@ -686,6 +699,41 @@ func (f *Facts) ge0Facts() []*Poly {
 			out = append(out, c.P, c.P.Neg())
 		}
 	}
+	// min/max atoms: min(a,b) <= a, b; max(a,b) >= a, b; min of non-negatives is non-negative
+	seenMM := map[string]bool{}
+	var mm []*Term
+	collect := func(p *Poly) {
+		for _, mo := range p.m {
+			for _, f := range mo.factors {
+				if (f.Op == OpMin || f.Op == OpMax) && len(f.Args) == 2 && !seenMM[f.Key()] {
+					seenMM[f.Key()] = true
+					mm = append(mm, f)
+				}
+			}
+		}
+	}
+	for _, c := range f.list {
+		if c.P != nil {
+			collect(c.P)
+		}
+	}
+	for _, q := range f.extra {
+		collect(q)
+	}
+	for _, t := range mm {
+		m, a, b := polyAtom(t), normInt(t.Args[0]), normInt(t.Args[1])
+		if t.Op == OpMin {
+			out = append(out, a.Sub(m), b.Sub(m))
+			if geIn(out, a) && geIn(out, b) {
+				out = append(out, m)
+			}
+		} else {
+			out = append(out, m.Sub(a), m.Sub(b))
+			if geIn(out, a) || geIn(out, b) {
+				out = append(out, m)
+			}
+		}
+	}
 	// p >= 0 and p != 0  =>  p - 1 >= 0
 	for _, c := range f.list {
 		if c.Kind != CNE0 {
@@ -710,7 +758,9 @@ func (f *Facts) impliesGE0(q *Poly) bool {
 	if nonNegConst(q) {
 		return true
 	}
+	f.extra = []*Poly{q}
 	g := f.ge0Facts()
+	f.extra = nil
 	for _, a := range g {
 		if nonNegConst(q.Sub(a)) {
 			return true
